@@ -18,6 +18,12 @@ A case is a history:
   first yields `hops` times with sleep(0): this moves the first segment of the call relative to the other wake-ups of
   the same turn), `[]` is a plain turn.  When the schedule is exhausted the remaining calls are released as soon as
   their caller is free; then the epilogue caller (index n) runs: quiet, shutdown, close, quiet.
+* `acc` (optional, TCP): script for the successive `loop.sock_accept()` calls of the listener (the event loop is the harness's:
+  nothing of the library is patched): "ok" = the real call, an errno name (EMFILE, ENFILE, ENOMEM, ENOBUFS = the capacity
+  errors the listener answers with a 100 ms back-off sleep; ECONNABORTED … = retried at once) = `accept()` fails with it;
+  calls beyond the script are real.  The loop's clock is virtual and frozen: a back-off sleep lasts until a caller's `tick`
+  op (advance the clock by 110 ms) — so a stop issued meanwhile lands INSIDE the back-off; `echo` ticks by itself while it
+  waits for its answer.  Extra lines `@acc <k> <errno>` (k-th accept call failed) and `@tick`.
 * `init_hops`: suspension points inside the request handler's service_init (the close-guard window of serve_forever);
   `fac_hops`: loop turns for which the listener factory parks before binding (backend.create_tcp_listeners /
   create_udp_listeners of the harness backend, passed through the public `backend=` parameter);
@@ -35,6 +41,7 @@ Canonical lines, in the order the segments really executed:
 from __future__ import annotations
 
 import asyncio
+import errno
 import logging
 import os
 import socket
@@ -87,6 +94,29 @@ class DetBackend(AsyncIOBackend):
         return socket.getaddrinfo(host, port, family=family, type=type, proto=proto, flags=flags | socket.AI_NUMERICHOST)
 
 
+class ALoop(VLoop):
+    """VLoop whose `sock_accept()` — what the listener's accept loop awaits — fails per script"""
+
+    def __init__(self, script: list[str], log) -> None:
+        super().__init__()
+        self.acc_script = list(script)
+        self.acc_calls = 0
+        self.acc_log = log
+
+    async def sock_accept(self, sock):  # type: ignore[override]
+        k = self.acc_calls
+        self.acc_calls = k + 1
+        name = self.acc_script[k] if k < len(self.acc_script) else "ok"
+        if name != "ok":
+            e = getattr(errno, name)
+            self.acc_log(f"@acc {k} {name}")
+            raise OSError(e, os.strerror(e))        # (as asyncio's own sock_accept: no suspension point before the error)
+        return await super().sock_accept(sock)
+
+
+BACKOFF_TICK = 0.11     # > constants.ACCEPT_CAPACITY_ERROR_SLEEP_TIME
+
+
 class _TCPHandler(AsyncStreamRequestHandler):
     def __init__(self, hops: int, token: str = "") -> None:
         self.hops = hops
@@ -137,7 +167,8 @@ class Run:
         self.progs: list[list[str]] = [list(p) for p in case["progs"]]
         self.n = len(self.progs)
         self.lines: list[str] = []
-        self.loop = VLoop()
+        self.acc: list[str] = [str(x) for x in case.get("acc", [])] if case["kind"] == "tcp" else []
+        self.loop = ALoop(self.acc, self.log) if self.acc else VLoop()
         self.tasks: dict[int, asyncio.Task] = {}
         self.cur_op: dict[int, str] = {}
         self.flags = (0, 0)
@@ -244,6 +275,9 @@ class Run:
                 if not any(ln.startswith(f"ret {j} ") for ln in self.lines[last_call:]):
                     self.log(f"cancel {j}")
                     self.tasks[j].cancel()
+        elif op == "tick":
+            self.loop.advance(BACKOFF_TICK)
+            self.log("@tick")
         elif op == "echo":
             self.echo()
         elif op == "conn":
@@ -295,6 +329,8 @@ class Run:
                 pass
             except (ConnectionError, OSError):
                 return "reset"
+            if self.acc and n % 6 == 0:
+                self.loop.advance(BACKOFF_TICK)     # the accept loop may be in a back-off sleep: let it end
             if n >= turns:
                 if not self.server.is_serving() and n >= turns + 5:
                     return None
